@@ -499,7 +499,11 @@ def connect_op(rng, c, k, invalid):
         return ('connect_left', other, tc, name, ap)
     if k == 'connect_right':
         n = len(c._inputs)
-        oc = [rng.choice(olabels) for _ in range(n)] if olabels else []
+        # one gate of `other` replaces one base input: mostly distinct gates (a repeated one is refused)
+        if olabels and len(olabels) >= n and rng.random() < 0.8:
+            oc = rng.sample(olabels, n)
+        else:
+            oc = [rng.choice(olabels) for _ in range(n)] if olabels else []
         if invalid and oc:
             oc = oc + [oc[0]]
         return ('connect_right', other, oc, name, ap)
@@ -517,7 +521,10 @@ def connect_op(rng, c, k, invalid):
         ins = list(c._inputs)
         kk = rng.randint(0, min(len(ins), 3))
         tc = rng.sample(ins, kk) if not invalid else [rng.choice(labels) for _ in range(kk)] if labels else []
-        oc = [rng.choice(olabels) for _ in range(len(tc))] if olabels else []
+        if olabels and len(olabels) >= len(tc) and rng.random() < 0.8:
+            oc = rng.sample(olabels, len(tc))
+        else:
+            oc = [rng.choice(olabels) for _ in range(len(tc))] if olabels else []
     else:
         oins = list(other['inputs'])
         kk = rng.randint(0, len(oins))
